@@ -102,5 +102,16 @@ def cases(ctx):
             q = p + rng.uniform(-2e-3, 2e-3)
             if abs(q) <= 90:
                 yield one(q, "near")
+    # a few nano-degrees either side of every transition (beyond the 1e-9 window a single value is admissible),
+    # evaluated in both orders and repeatedly: the answer must not depend on what was asked before
+    for n, lo, hi in NL_TABLE:
+        t = lo / E12
+        for sgn in (1, -1):
+            for d in (2e-9, 5e-9, 1e-8, 1e-7, 2e-7, 4e-7):
+                for seq in ((t - d, t + d, t - d), (t + d, t - d, t + d)):
+                    for x in seq:
+                        if abs(x) <= 90:
+                            yield one(sgn * x, "fine")
+                            yield one(sgn * x, "pyx-fine")
     for _ in range(ctx.n(20000, 300000)):
         yield one(rng.uniform(-90, 90), "random")
